@@ -11,6 +11,7 @@ use crate::{s, OpResult};
 fn conv<T>(
     strings: &[String],
     from: impl Fn(&str) -> T,
+    from_owned: impl Fn(String) -> T,
     to: impl Fn(&T) -> String,
     cmp: Option<&dyn Fn(&T, &T) -> i8>,
 ) -> Value
@@ -31,6 +32,8 @@ where
                 "json": js,
                 "de": match &de { Ok(d) => json!({"ok": to(d)}), Err(e) => json!({"err": e.to_string()}) },
                 "de_eq_from": de.as_ref().map(|d| d == v).unwrap_or(false),
+                "owned_as_str": to(&from_owned(st.clone())),
+                "owned_eq": from_owned(st.clone()) == *v,
                 "idem": to(&from(&text)),
                 "idem_eq": from(&text) == *v,
             })
@@ -54,16 +57,16 @@ fn ord_of<T: Ord>(a: &T, b: &T) -> i8 {
 
 macro_rules! se {
     ($strings:expr, $ty:ty) => {
-        conv::<$ty>($strings, |x| <$ty>::from(x), |v| { let r: &str = v.as_ref(); r.to_owned() }, None)
+        conv::<$ty>($strings, |x| <$ty>::from(x), |x: String| <$ty>::from(x), |v| { let r: &str = v.as_ref(); r.to_owned() }, None)
     };
     ($strings:expr, $ty:ty, ord) => {
-        conv::<$ty>($strings, |x| <$ty>::from(x), |v| { let r: &str = v.as_ref(); r.to_owned() }, Some(&ord_of::<$ty>))
+        conv::<$ty>($strings, |x| <$ty>::from(x), |x: String| <$ty>::from(x), |v| { let r: &str = v.as_ref(); r.to_owned() }, Some(&ord_of::<$ty>))
     };
 }
 
 macro_rules! et {
     ($strings:expr, $ty:ty) => {
-        conv::<$ty>($strings, |x| <$ty>::from(x), |v| v.to_string(), Some(&ord_of::<$ty>))
+        conv::<$ty>($strings, |x| <$ty>::from(x), |x: String| <$ty>::from(x), |v| v.to_string(), Some(&ord_of::<$ty>))
     };
 }
 
